@@ -3,6 +3,7 @@ import Flowjaxv.Proofs.ArrGen
 import Flowjaxv.Proofs.Leaves
 import Flowjaxv.Proofs.Flows
 import Flowjaxv.Proofs.CtorsGen
+import Flowjaxv.Proofs.JaxTransforms
 /-!
 # C08 — combinators mean what their definitions say, for every shape and axis
 
@@ -767,7 +768,7 @@ open Flows FlowsPf
 theorem scan_eq_chain_of_unstacked {X C κ : Type} (makeLayer : κ → Bij X C ℝ) (key : ℕ → κ) (n : ℕ) :
     Flows.scanOf (Flows.filterVmap makeLayer (Flows.jrSplitN key n))
       = (Chain.mk ((List.range n).map fun i => makeLayer (key i))).toBij := by
-  rw [FlowsPf.layers_eq_map]; rfl
+  rw [FlowsPf.layers_eq_map, FlowsPf.scanOf_eq_chain]
 
 /-- … instantiated at the generated coupling / MAF / planar / BNAF factories, `invert = false`; `invert = true` wraps the
 same chain in the generated `Invert` -/
@@ -776,7 +777,7 @@ theorem coupling_flow_eq_chain (tf : List ℝ → Bij ℝ Unit ℝ) (dim : ℕ) 
         = (Chain.mk ((List.range n).map fun i => coupling_flow.make_layer tf dim (key i))).toBij ∧
     couplingFlowBij tf dim key n true
         = (Invert.mk (Chain.mk ((List.range n).map fun i => coupling_flow.make_layer tf dim (key i))).toBij).toBij := by
-  rw [FlowsPf.couplingFlowBij_eq, FlowsPf.couplingFlowBij_eq, FlowsPf.layers_eq_map]
+  rw [FlowsPf.couplingFlowBij_eq, FlowsPf.couplingFlowBij_eq, FlowsPf.layers_eq_map, FlowsPf.scanOf_eq_chain]
   exact ⟨rfl, rfl⟩
 
 theorem maf_flow_eq_chain (tf : List ℝ → Bij ℝ Unit ℝ) (dim : ℕ) (key : ℕ → Masks.MafNet ℝ × List ℕ) (n : ℕ) :
@@ -784,7 +785,7 @@ theorem maf_flow_eq_chain (tf : List ℝ → Bij ℝ Unit ℝ) (dim : ℕ) (key 
         = (Chain.mk ((List.range n).map fun i => masked_autoregressive_flow.make_layer tf dim (key i))).toBij ∧
     mafFlowBij tf dim key n true
         = (Invert.mk (Chain.mk ((List.range n).map fun i => masked_autoregressive_flow.make_layer tf dim (key i))).toBij).toBij := by
-  rw [FlowsPf.mafFlowBij_eq, FlowsPf.mafFlowBij_eq, FlowsPf.layers_eq_map]
+  rw [FlowsPf.mafFlowBij_eq, FlowsPf.mafFlowBij_eq, FlowsPf.layers_eq_map, FlowsPf.scanOf_eq_chain]
   exact ⟨rfl, rfl⟩
 
 theorem planar_flow_eq_chain (dim : ℕ) (s : ℝ) (key : ℕ → (List ℝ → List ℝ) × List ℕ) (n : ℕ) :
@@ -792,7 +793,7 @@ theorem planar_flow_eq_chain (dim : ℕ) (s : ℝ) (key : ℕ → (List ℝ → 
         = (Chain.mk ((List.range n).map fun i => planar_flow.make_layer dim s (key i))).toBij ∧
     planarFlowBij dim s key n true
         = (Invert.mk (Chain.mk ((List.range n).map fun i => planar_flow.make_layer dim s (key i))).toBij).toBij := by
-  rw [FlowsPf.planarFlowBij_eq, FlowsPf.planarFlowBij_eq, FlowsPf.layers_eq_map]
+  rw [FlowsPf.planarFlowBij_eq, FlowsPf.planarFlowBij_eq, FlowsPf.layers_eq_map, FlowsPf.scanOf_eq_chain]
   exact ⟨rfl, rfl⟩
 
 /-- each layer is `Chain([bijection, permutation]).merge_chains()`; the chain of such layers has the same four methods
@@ -819,5 +820,181 @@ theorem coupling_flow_chain_instance :
   (coupling_flow_eq_chain defaultTransformer 3 couplingKeys 2).1
 
 end PremadeFlows
+
+/-! ## Scan and Vmap, REGENERATED (`Gen/JaxTransforms.lean`, translated from `jax_transforms.py` on every run by
+`tools/py2lean/py2meth.py`, sheet `targets_jaxtr.py`; the meanings of `lax.scan`, `eqx.partition` / `combine`, `eqx.filter_vmap`
+are the hand-written `Model/JaxTrWorld.lean` — trusted, compared with the real objects by `tools/props/c08.py`) -/
+section JaxTransformsGen
+open GenJaxTr
+
+/-- **the generated `_filter_scan`** (`eqx.partition(xs, eqx.is_array)`, `_scan_fn` = `f` on `eqx.combine(x, static)`,
+`scan(_scan_fn, init, params, reverse=reverse)`): the final carry is the left fold of `f` over the unstacked layers — over the
+REVERSED list exactly when `reverse` — and one `ys` entry per layer is returned; every carry type, layer type, `f`, length. -/
+theorem gen_filter_scan_carry {γ β υ : Type} (f : γ → β → γ × υ) (init : γ) (xs : JaxTr.Stacked β) (r : Bool) :
+    (filterScan f init xs r).1 = (if r then xs.layers.reverse else xs.layers).foldl (fun c b => (f c b).1) init
+    ∧ (filterScan f init xs r).2.length = xs.layers.length :=
+  ⟨JaxTrProofs.filterScan_fst f init xs r, JaxTrProofs.filterScan_snd_length f init xs r⟩
+
+/-- **`gen_scan_eq_chain`** — the four GENERATED `Scan` methods (nested `step` closures with the captured `condition`, carries
+`(x, 0)` / `(y, log_det + log_det_i.sum())`, `_filter_scan(step, init, self.bijection[, reverse=True])`) are the four GENERATED
+`Chain` methods of the unstacked layers: `transform` applies the layers first to last, `inverse` last to first, the two
+`…_and_log_det` methods return those points and the sum of the layers' log-dets — every number of layers, heterogeneous layer
+behaviour, every input and condition, every log-det scalar type. -/
+theorem gen_scan_eq_chain {X C α : Type} [Add α] [Neg α] [OfNat α 0] (s : JaxTr.Scan X C α) :
+    (∀ x c, Scan.transform s x c = (Chain.mk s.bijection.layers).transform x c)
+    ∧ (∀ y c, Scan.inverse s y c = (Chain.mk s.bijection.layers).inverse y c)
+    ∧ (∀ x c, Scan.transform_and_log_det s x c = (Chain.mk s.bijection.layers).transform_and_log_det x c)
+    ∧ (∀ y c, Scan.inverse_and_log_det s y c = (Chain.mk s.bijection.layers).inverse_and_log_det y c)
+    ∧ s.toBij = (Chain.mk s.bijection.layers).toBij :=
+  ⟨JaxTrProofs.scan_transform_eq s, JaxTrProofs.scan_inverse_eq s, JaxTrProofs.scan_tld_eq s, JaxTrProofs.scan_ild_eq s,
+   JaxTrProofs.scan_toBij_eq_chain s⟩
+
+/-- the `Scan` the generated premade-flow factories call (`Flows.scanOf` of `Model/FlowsPre.lean`) IS the GENERATED `Scan` of the
+stacked layers (by definition, since this round: every flow theorem of C01 / C03 / C08 and the `flow` correspondences now go
+through the regenerated methods), and the HAND model `ArrComb.scan` of `Model/ArrExt.lean` (defined as the generated `Chain` of
+the unstacked layers: `scan_eq_chain`) equals it. -/
+theorem gen_scan_eq_hand {X C κ : Type} (layers : List (Bij X C ℝ)) (alayers : List (Bij (Arr κ) C ℝ)) :
+    Flows.scanOf layers = (JaxTr.scanOfLayers layers).toBij ∧ ArrComb.scan alayers = (JaxTr.scanOfLayers alayers).toBij :=
+  ⟨rfl, (JaxTrProofs.scan_toBij_eq_chain (JaxTr.scanOfLayers alayers)).symm⟩
+
+/-- the premade-flow statement on the regenerated `Scan`: `Scan(filter_vmap(make_layer)(split(key, n)))` with the generated
+`Scan` methods is the generated `Chain` of `[make_layer(key 0), …, make_layer(key (n−1))]` -/
+theorem gen_scan_eq_chain_of_unstacked {X C κ : Type} (makeLayer : κ → Bij X C ℝ) (key : ℕ → κ) (n : ℕ) :
+    (JaxTr.scanOfLayers (Flows.filterVmap makeLayer (Flows.jrSplitN key n))).toBij
+      = (Chain.mk ((List.range n).map fun i => makeLayer (key i))).toBij := by
+  rw [JaxTrProofs.scan_toBij_eq_chain]; simp [JaxTr.scanOfLayers, Flows.filterVmap, Flows.jrSplitN, Function.comp_def]
+
+/-- generated `Scan` of typed-composable lawful layers is lawful (any number of layers) -/
+theorem gen_scan_lawful {X C : Type} {s : JaxTr.Scan X C ℝ} {D E : Set X} (h : ChainLawful s.bijection.layers D E) :
+    s.toBij.Lawful D E := JaxTrProofs.scan_lawful h
+
+/-- the generated `shape` / `cond_shape` properties of `Scan` are the stacked bijection's -/
+theorem gen_scan_shape {X C : Type} (s : JaxTr.Scan X C ℝ) :
+    Scan.shape s = s.bijection.shape ∧ Scan.cond_shape s = s.bijection.cond_shape := ⟨rfl, rfl⟩
+
+/-- non-vacuity, and the ORDER made visible: for the stacked layers `x ↦ x + 1`, `x ↦ 2·x` the generated `Scan` maps `0 ↦ 2`
+with log-det `0 + log 2`-slot sum `10 + 20`, and its inverse maps `2 ↦ 0` (halve first, then subtract: the scan runs in
+reverse; the forward order would give `1/2`). -/
+theorem gen_scan_instance :
+    let l1 : Bij ℝ Unit ℝ := ⟨fun x _ => x + 1, fun y _ => y - 1, fun x _ => (x + 1, 10), fun y _ => (y - 1, -10)⟩
+    let l2 : Bij ℝ Unit ℝ := ⟨fun x _ => 2 * x, fun y _ => y / 2, fun x _ => (2 * x, 20), fun y _ => (y / 2, -20)⟩
+    let s := JaxTr.scanOfLayers [l1, l2]
+    s.toBij.fwd 0 () = 2 ∧ s.toBij.inv 2 () = 0 ∧ s.toBij.fwdLd 0 () = (2, 30) ∧ s.toBij.invLd 2 () = (0, -30)
+      ∧ s.toBij.Lawful univ univ := by
+  intro l1 l2 s
+  have hl : s.toBij.Lawful univ univ := by
+    refine gen_scan_lawful (.cons (M := univ) ⟨fun _ _ _ => trivial, fun _ _ _ => trivial, ?_, ?_, fun _ _ => rfl, fun _ _ => rfl⟩
+      (.cons (M := univ) ⟨fun _ _ _ => trivial, fun _ _ _ => trivial, ?_, ?_, fun _ _ => rfl, fun _ _ => rfl⟩ (.nil _)))
+    · intro x _ _; simp [l1]
+    · intro x _ _; simp [l1]
+    · intro x _ _; simp [l2]
+    · intro x _ _; simp [l2]; ring
+  refine ⟨?_, ?_, ?_, ?_, hl⟩
+  · simp [s, JaxTr.Scan.toBij, JaxTrProofs.scan_transform_eq, JaxTr.scanOfLayers, Chain.transform, l1, l2]
+  · simp [s, JaxTr.Scan.toBij, JaxTrProofs.scan_inverse_eq, JaxTr.scanOfLayers, Chain.inverse, l1, l2]
+  · simp [s, JaxTr.Scan.toBij, JaxTrProofs.scan_tld_eq, JaxTr.scanOfLayers, Chain.transform_and_log_det, l1, l2, Jnp.sumElem]
+    norm_num
+  · simp [s, JaxTr.Scan.toBij, JaxTrProofs.scan_ild_eq, JaxTr.scanOfLayers, Chain.inverse_and_log_det, l1, l2, Jnp.sumElem]
+    norm_num
+
+/-- **`gen_vmap_slicewise` (code's own terms)** — for EVERY `in_axes` (mapped leaves or `None`), every `in_axes_condition` (any
+axis or `None`), every axis size, child behaviour, input: the four GENERATED `Vmap` methods (nested `_transform…` closures,
+`self.vmap(f)(self.bijection, x, condition)`, `Vmap.vmap` = `eqx.filter_vmap(f, in_axes=self.in_axes, axis_size=self.axis_size)`)
+return `jnp.stack(·, 0)` of the child method applied to (slice `i` of the bijection or the shared bijection, slice `i` of the input
+along axis 0, slice `i` of the condition along its axis or the shared condition), and the log-det is `jnp.sum` of the per-call ones. -/
+theorem gen_vmap_slicewise {κ : Type} [Inhabited κ] (v : JaxTr.Vmap κ ℝ) (x c : Arr κ) :
+    let bs := JaxTr.mapModule v.in_axes.1 v.bijection v.axis_size
+    let xs := JaxTr.unstack x v.axis_size ((v.in_axes.2.1 : Nat) : Int)
+    let cds := JaxTr.mapArg v.in_axes.2.2 c v.axis_size
+    Vmap.transform v x c = ArrJnp.stack (JaxTr.zipWith3 (fun b xi ci => b.fwd xi ci) bs xs cds) 0
+    ∧ Vmap.inverse v x c = ArrJnp.stack (JaxTr.zipWith3 (fun b xi ci => b.inv xi ci) bs xs cds) 0
+    ∧ Vmap.transform_and_log_det v x c
+        = (ArrJnp.stack (JaxTr.zipWith3 (fun b xi ci => (b.fwdLd xi ci).1) bs xs cds) 0,
+           JaxTr.jnpSum (JaxTr.zipWith3 (fun b xi ci => (b.fwdLd xi ci).2) bs xs cds))
+    ∧ Vmap.inverse_and_log_det v x c
+        = (ArrJnp.stack (JaxTr.zipWith3 (fun b xi ci => (b.invLd xi ci).1) bs xs cds) 0,
+           JaxTr.jnpSum (JaxTr.zipWith3 (fun b xi ci => (b.invLd xi ci).2) bs xs cds)) :=
+  JaxTrProofs.vmap_slicewise v x c
+
+/-- **`gen_vmap_eq_model`** — generated `Vmap` = the existing HAND model `ArrComb.vmap` (= `Stack` along a new leading axis,
+`vmap_eq_stack`) of the per-call bijections `JaxTrProofs.callBijs v c` (slice `i` of a mapped bijection or the shared one, with
+slice `i` of a mapped condition or the shared one), all four methods, on arrays of the declared shape; shared vs mapped parameters
+and shared vs mapped condition alike.  Hypotheses = what `Vmap.__init__` / JAX enforce: `x` is mapped along axis 0 (the literal in
+`self.in_axes`), the mapped axes have length `axis_size > 0`, children return arrays of the child shape. -/
+theorem gen_vmap_eq_model {κ : Type} [Inhabited κ] (v : JaxTr.Vmap κ ℝ) (cs : List Nat) (c : Arr κ) (hx0 : v.in_axes.2.1 = 0)
+    (hn : (JaxTrProofs.calls v c).length = v.axis_size) (hpos : 0 < v.axis_size)
+    (hsh : ArrGen.StackShaped cs (JaxTrProofs.callBijs v c)) {x : Arr κ} (hx : x ∈ WS (v.axis_size :: cs)) :
+    Vmap.transform v x c = (ArrComb.vmap cs (JaxTrProofs.callBijs v c)).fwd x c
+    ∧ Vmap.inverse v x c = (ArrComb.vmap cs (JaxTrProofs.callBijs v c)).inv x c
+    ∧ Vmap.transform_and_log_det v x c = (ArrComb.vmap cs (JaxTrProofs.callBijs v c)).fwdLd x c
+    ∧ Vmap.inverse_and_log_det v x c = (ArrComb.vmap cs (JaxTrProofs.callBijs v c)).invLd x c :=
+  JaxTrProofs.vmap_eq_model v cs c hx0 hn hpos hsh hx
+
+/-- hence the hand statement `vmap_slicewise` holds of the generated methods: chunk `i` (the `i`-th run of `∏ cshape` entries) of
+the generated `Vmap.transform` / `inverse` output is per-call bijection `i` on chunk `i` of the input -/
+theorem gen_vmap_chunks {κ : Type} [Inhabited κ] (v : JaxTr.Vmap κ ℝ) (cs : List Nat) (c : Arr κ) (hx0 : v.in_axes.2.1 = 0)
+    (hn : (JaxTrProofs.calls v c).length = v.axis_size) (hpos : 0 < v.axis_size)
+    (hb : ∀ b ∈ JaxTr.mapModule v.in_axes.1 v.bijection v.axis_size, b.toBij.Lawful (WS cs) (WS cs))
+    {x : Arr κ} (hx : x ∈ WS (v.axis_size :: cs)) :
+    chunks (Arr.prod cs) v.axis_size (Vmap.transform v x c).data
+        = List.zipWith (fun b sl => (b.fwd ⟨cs, sl⟩ c).data) (JaxTrProofs.callBijs v c) (chunks (Arr.prod cs) v.axis_size x.data)
+    ∧ chunks (Arr.prod cs) v.axis_size (Vmap.inverse v x c).data
+        = List.zipWith (fun b sl => (b.inv ⟨cs, sl⟩ c).data) (JaxTrProofs.callBijs v c) (chunks (Arr.prod cs) v.axis_size x.data) := by
+  have hbl := JaxTrProofs.callBijs_lawful c hb
+  have hl : (JaxTrProofs.callBijs v c).length = v.axis_size := by simp [JaxTrProofs.callBijs, hn]
+  have e := JaxTrProofs.vmap_eq_model v cs c hx0 hn hpos (ArrGen.stackShaped_of_lawful hbl) hx
+  have h := ArrComb.vmap_slicewise cs hbl (x := x) (by rw [hl]; exact hx) c
+  rw [hl] at h
+  rw [e.1, e.2.1]; exact h
+
+/-- **round trips of the generated `Vmap` at any condition** (mapped along any axis that exists, or shared) -/
+theorem gen_vmap_roundtrip {κ : Type} [Inhabited κ] (v : JaxTr.Vmap κ ℝ) (cs : List Nat) (c : Arr κ) (hx0 : v.in_axes.2.1 = 0)
+    (hn : (JaxTrProofs.calls v c).length = v.axis_size) (hpos : 0 < v.axis_size)
+    (hb : ∀ b ∈ JaxTr.mapModule v.in_axes.1 v.bijection v.axis_size, b.toBij.Lawful (WS cs) (WS cs))
+    {x : Arr κ} (hx : x ∈ WS (v.axis_size :: cs)) :
+    Vmap.transform v x c ∈ WS (v.axis_size :: cs) ∧ Vmap.inverse v x c ∈ WS (v.axis_size :: cs)
+    ∧ Vmap.inverse v (Vmap.transform v x c) c = x ∧ Vmap.transform v (Vmap.inverse v x c) c = x
+    ∧ (Vmap.transform_and_log_det v x c).1 = Vmap.transform v x c
+    ∧ (Vmap.inverse_and_log_det v x c).1 = Vmap.inverse v x c :=
+  JaxTrProofs.vmap_roundtrip v cs c hx0 hn hpos hb hx
+
+/-- **the generated `Vmap` with a broadcast condition is lawful** on the declared shape `axis_size :: cshape`, mapped or broadcast
+parameters, whenever the per-call bijections are lawful on `cshape` -/
+theorem gen_vmap_lawful {κ : Type} [Inhabited κ] (v : JaxTr.Vmap κ ℝ) (cs : List Nat) (hx0 : v.in_axes.2.1 = 0)
+    (hc : v.in_axes.2.2 = none)
+    (hm : (JaxTr.mapModule v.in_axes.1 v.bijection v.axis_size).length = v.axis_size) (hpos : 0 < v.axis_size)
+    (hb : ∀ b ∈ JaxTr.mapModule v.in_axes.1 v.bijection v.axis_size, b.toBij.Lawful (WS cs) (WS cs)) :
+    v.toBij.Lawful (WS (v.axis_size :: cs)) (WS (v.axis_size :: cs)) :=
+  JaxTrProofs.vmap_lawful v cs hx0 hc hm hpos hb
+
+/-- the generated `Vmap.shape` is `(axis_size, *bijection.shape)` -/
+theorem gen_vmap_shape {κ : Type} (v : JaxTr.Vmap κ ℝ) : Vmap.shape v = v.axis_size :: v.bijection.whole.shape := rfl
+
+/-- non-vacuity: `Vmap(Affine(loc=(1,), scale=(−2,)), axis_size=2)` (broadcast parameters) and the same bijection with mapped
+parameters (`in_axes` given, two slices) are lawful on arrays of shape `(2, 1)` -/
+theorem gen_vmap_instance :
+    let child (l s : ℝ) : SBij (Arr ℝ) (Arr ℝ) ℝ :=
+      SBij.ofBij (ArrComb.elementwise [((Affine.mk l s : Affine ℝ).toBij : Bij ℝ (Arr ℝ) ℝ)]) [1] none
+    let shared : JaxTr.Vmap ℝ ℝ := ⟨⟨child 1 (-2), []⟩, (none, 0, none), 2, none⟩
+    let mapped : JaxTr.Vmap ℝ ℝ := ⟨⟨child 0 1, [child 1 (-2), child 3 (1/2)]⟩, (some ⟨⟩, 0, none), 2, none⟩
+    shared.toBij.Lawful (WS [2, 1]) (WS [2, 1]) ∧ mapped.toBij.Lawful (WS [2, 1]) (WS [2, 1]) := by
+  intro child shared mapped
+  have hch : ∀ l s : ℝ, s ≠ 0 → (child l s).toBij.Lawful (WS [1]) (WS [1]) := by
+    intro l s hs
+    exact ArrComb.elementwise_lawful (shape := [1]) (by intro b hb; simp at hb; subst hb; exact Leaves.affine_lawful _ hs) (by simp [Arr.prod])
+  constructor
+  · refine gen_vmap_lawful shared [1] rfl rfl (by simp [shared, JaxTr.mapModule]) (by simp [shared]) ?_
+    intro b hb
+    simp only [shared, JaxTr.mapModule, List.mem_replicate] at hb
+    rw [hb.2]; exact hch 1 (-2) (by norm_num)
+  · refine gen_vmap_lawful mapped [1] rfl rfl (by simp [mapped, JaxTr.mapModule]) (by simp [mapped]) ?_
+    intro b hb
+    simp only [mapped, JaxTr.mapModule, List.mem_cons, List.not_mem_nil, or_false] at hb
+    rcases hb with rfl | rfl
+    · exact hch 1 (-2) (by norm_num)
+    · exact hch 3 (1/2) (by norm_num)
+
+end JaxTransformsGen
+
 
 end C08
